@@ -45,7 +45,26 @@ class FileDomain(EvDomain):
             if v is not None: return Enum('tulz::File::Mode::' + v)
         return super().init_param(fn, p)
 
+    owning = False       # m_file is a std::unique_ptr<FILE, D> whose deleter was verified to call fclose (see run())
+
     def call_result(self, ex, n, q, base, on, ov, vals, st, fr):
+        if self.owning and on == 'm_file' and (n.mclass or '').startswith('std::unique_ptr'):
+            held = ov
+            if isinstance(held, Ref): held = ex.read(held.loc, st, n)
+            if base == 'reset': held = getattr(self, '_held_before', held)
+            if base in ('operator==', 'operator!=') and any(isinstance(v, Lin) and v.is_const() and v.c == 0 or v is None for v in vals):
+                o = self.atom('is_open')
+                if o is not None: return o if base == 'operator!=' else (not o)
+            if base == 'operator bool':
+                o = self.atom('is_open')
+                if o is not None: return o
+            if base == 'reset':
+                # the deleter runs on what was held (if anything), after the new value is in place: that is the stream's fclose
+                o = self.atom('is_open')
+                if o is not False and not (isinstance(held, Lin) and held.is_const() and held.c == 0):
+                    self.ev(st, Ev('call', n, name='fclose', obj=None, args=[held if held is not None else Sym('m_file')]), fr)
+                    if 'is_open' in self.oracle: self.oracle = dict(self.oracle, is_open=bool(vals and vals[0] is not None and not (isinstance(vals[0], Lin) and vals[0].is_const() and vals[0].c == 0)))
+                return None
         if q == 'tulz::Path::exists': return self._b('exists', n)
         if q == 'tulz::Path::isDirectory': return self._b('is_dir', n)
         if q == 'tulz::File::isOpen': return self._b('is_open', n)
@@ -78,9 +97,22 @@ def run(facts, rep, tier):
         if not c: rep.anchor_missing(f'{F}::{name}', 'not found')
         fns[name] = c
     if rep.broken: return
+    FileDomain.owning = False
     fc = facts.cls(F) or {}
     hf = [x for x in fc.get('fields', []) if x['name'] == 'm_file']
-    if hf and not re.fullmatch(r'(struct )?(_IO_)?FILE \*', hf[0]['ctype'].strip()):
+    owner_ok = None
+    if hf and hf[0]['ctype'].startswith('std::unique_ptr<'):
+        m_ = re.match(r'std::unique_ptr<(?:struct )?_IO_FILE,\s*([\w:<> ]+?)\s*>$', hf[0]['ctype'].strip())
+        if m_:
+            dels = [g for g in facts.fns if (g.d.get('classfull') or g.d.get('class')) == m_.group(1).strip() and g.qname.endswith('::operator()')]
+            if dels:
+                calls_ = [x for x in dels[0].nodes() if x.k == 'call' and not x.callee_in_root]
+                owner_ok = len(calls_) == 1 and calls_[0].callee_base() == 'fclose'
+                rep.check(owner_ok, 'FI.5', f'the deleter {m_.group(1)} of the stream handle calls fclose (once, on what it is given)', dels[0].shortloc(), f'the deleter does {[c.text()[:30] for c in calls_]}', key='FI.5|deleter', fn=dels[0].name)
+    if owner_ok:
+        FileDomain.owning = True
+        rep.assume('m_file is a std::unique_ptr<FILE, D>: what it holds is the stream handle; reset() stores the new handle and then runs D (= fclose) on the previous one; the implicit member destructor does the same')
+    elif hf and not re.fullmatch(r'(struct )?(_IO_)?FILE \*', hf[0]['ctype'].strip()):
         # the rules follow the handle as a plain FILE* (stored by fopen, passed to the stdio calls, nulled by close); an owning wrapper
         # closes through its deleter and is not described by them
         for r in ('FI.2', 'FI.3', 'FI.4', 'FI.5'):
@@ -174,8 +206,13 @@ def run(facts, rep, tier):
                 rep.check(ok, 'FI.2', f'open row {row}: opens the stream', fo[0].site if fo else opn.shortloc(), f'throws {thrown}' if thrown else f'{len(fo)} fopen calls', key='FI.2|opens', fn=opn.name)
                 if fo:
                     cl = [e for e in E if e.kind == 'call' and strip_targs(e.name) == f'{F}::close']
+                    late = [e for e in E if e.kind == 'call' and e.name == 'fclose' and E.index(e) > E.index(fo[0])] if FileDomain.owning else []
                     okc = (len(cl) == 1 and E.index(cl[0]) < E.index(fo[0])) if is_open else not cl
-                    rep.check(okc, 'FI.2', f'open row {row}: a stream that is already open is closed first', opn.shortloc(), 'the previous stream leaks' if is_open else 'closes a stream that is not open', key='FI.2|reopen', fn=opn.name)
+                    why_c = 'the previous stream leaks' if is_open else 'closes a stream that is not open'
+                    if is_open and not cl and late:
+                        okc = False; why_c = ('the previous stream is closed only *after* the new fopen (the owning handle\'s reset() runs the deleter last): its unflushed data is written out over the file the new stream has just truncated / positioned, '
+                                             'so what was "overwritten" survives and size() / read() report stale content')
+                    rep.check(okc, 'FI.2', f'open row {row}: a stream that is already open is closed first', (late[0].site if (is_open and not cl and late) else opn.shortloc()), why_c, key='FI.2|reopen', fn=opn.name)
                     w = [e for e in E if e.kind == 'write' and e.obj == 'm_file']
                     wmode = [e for e in E if e.kind == 'write' and e.obj == 'm_mode']
                     rep.check(bool(w) and bool(wmode), 'FI.2', f'open row {row}: m_file and m_mode are stored', opn.shortloc(), 'the handle / mode is not recorded (read() picks the wrong counting strategy)', key='FI.2|store', fn=opn.name)
@@ -293,13 +330,19 @@ def run(facts, rep, tier):
                         ok = one and (cons and repr(cons[0].args[0]) == repr(a[2]) if cons else True)
                         rep.check(ok, 'FI.4', f'read() mode {mode}: read(buffer, 1, count) with the buffer sized count', reads[0].site, f'read({a[1]}, {a[2]}) into an Array of {cons[0].args[0] if cons else "?"}', key='FI.4|fread-args', fn=rd.name)
         # fread / fwrite argument order
+        def _is_stream(x):
+            # the stream member itself, or what the owning handle holds (`m_file.get()`)
+            while x is not None and x.k == 'cast': x = x.n('sub')
+            if x is None: return False
+            if x.is_field('m_file'): return True
+            return FileDomain.owning and x.k == 'call' and x.callee_base() == 'get' and x.n('object') is not None and x.n('object').is_field('m_file')
         for f in [g for g in facts.fns if g.d.get('class') == F]:
             for n in f.nodes():
                 if n.k == 'call' and n.callee_base() == 'fread' and not n.callee_in_root:
                     a = n.ns('args'); ps = [p['decl'] for p in f.d['params']]
                     fwd = len(a) == 4 and len(ps) == 3 and all(x is not None and x.k == 'ref' and x.decl in ps for x in a[:3])
                     if fwd:
-                        ok = [x.decl for x in a[:3]] == ps[:3] and a[3] is not None and a[3].is_field('m_file')
+                        ok = [x.decl for x in a[:3]] == ps[:3] and _is_stream(a[3])
                         rep.check(ok, 'FI.4', 'read(buffer, size, count) -> fread(buffer, size, count, m_file)', n.shortloc(), f'fread arguments {[x.text()[:12] for x in a if x is not None]}', key='FI.4|fread', fn=f.name)
                     elif len(a) == 4 and a[3] is not None and not a[3].is_field('m_file') and a[3].k == 'member':
                         rep.violation('FI.4', f'{f.name}: fread reads from m_file', n.shortloc(), f'fread is given the stream `{a[3].text()[:30]}`', key='FI.4|fread', fn=f.name)
@@ -309,7 +352,7 @@ def run(facts, rep, tier):
                     a = n.ns('args'); ps = [p['decl'] for p in f.d['params']]
                     fwd = len(a) == 4 and len(ps) == 3 and all(x is not None and x.k == 'ref' and x.decl in ps for x in a[:3])
                     if fwd:
-                        ok = [x.decl for x in a[:3]] == [ps[0], ps[2], ps[1]] and a[3] is not None and a[3].is_field('m_file')
+                        ok = [x.decl for x in a[:3]] == [ps[0], ps[2], ps[1]] and _is_stream(a[3])
                         rep.check(ok, 'FI.4', 'write(data, size, elementSize) -> fwrite(data, elementSize, size, m_file)', n.shortloc(), f'fwrite arguments {[x.text()[:12] for x in a if x is not None]}', key='FI.4|fwrite', fn=f.name)
                     else:
                         rep.inconclusive('FI.4', f'{f.name}: fwrite(data, elementSize, size, m_file)', n.shortloc(), f'fwrite is not called through the (data, size, elementSize) overload: arguments {[x.text()[:14] for x in a if x is not None]} not followed')
@@ -350,7 +393,9 @@ def run(facts, rep, tier):
             else:
                 rep.check(not fc, 'FI.5', 'close() on a closed file does not call fclose', cl.shortloc(), 'fclose(NULL)', key='FI.5|close-null', fn=cl.name)
     dt = [f for f in facts.fns if f.d.get('class') == F and f.d.get('dtor')]
-    if dt:
+    if FileDomain.owning and (not dt or dt[0].d.get('defaulted') or dt[0].body is None or not any(True for _ in dt[0].body.children())):
+        rep.ok('FI.5', '~File(): the owning handle closes an open stream when the object is destroyed (member destructor -> deleter -> fclose)', hf[0]['loc'])
+    elif dt:
         for is_open in (True, False):
             dom = FileDomain(dict(is_open=is_open))
             for P, E in run_paths(facts, dt[0], dom):
